@@ -676,6 +676,7 @@ def small_docs(rng, ses, ir, n):
             names += [f.name for f in core_t.get_enumerated_subtypes()][:3]
     if isinstance(core_t, Union):
         names += [f.name for f in core_t.all_fields][:5]
+    names = list(dict.fromkeys(names))      # a member may be called `a` or `other`: a JSON object has each key once
     tagvals = [['s', x] for x in names if x != '.tag']
     out = list(SMALL_ATOMS) + tagvals
     for _ in range(n):
@@ -854,8 +855,8 @@ def mark(ses, t, v, sent, omitted_for, redacted, acc, depth=0):
     from harness.values import sat_ir
     cur = t
     while isinstance(cur, (Alias, Nullable)):
-        if isinstance(cur, Alias) and cur.redactor is not None:
-            redacted = cur.redactor
+        if isinstance(cur, Alias) and irdump.effective_redactor(cur) is not None:
+            redacted = irdump.effective_redactor(cur)      # what the generated validator object carries (see irdump)
         cur = cur.data_type
     k = v[0]
     if k == 's' and isinstance(cur, String):
